@@ -58,6 +58,9 @@ type c13State struct {
 	// slot or not at all, whatever lands between fetch and store.
 	prevRates map[uint32]map[uint32]float64 // device -> absolute slot -> rate
 	fetchedAt map[string]uint32             // goroutine parked after a fetch -> clock at the fetch
+	// Key of the most recent server-authorization post (the one parked in a
+	// srvauth gap when an interferer is chosen).
+	lastSrvKey glow.PublicKey
 }
 
 var c13PostEffect = map[string]map[string]bool{
@@ -207,6 +210,9 @@ func (st *c13State) interferer(p *Parked) {
 	bans := len(h.N.Model.Bans)
 	off := h.N.Model.Offset
 	menu := w.C.Weighted("menu", 3, 2, 3, 2, 2, 1, 1, 1)
+	if (p.Site == "srvauth.between" || p.Site == "srvauth.prenet") && w.C.Chance("list-op-in-list-gap", 1, 3) {
+		menu = 5
+	}
 	w.Probe("c13.pair." + p.Site + "." + []string{"ban", "authorize", "report", "rotate", "stats-falseneg", "server-post", "sync", "register"}[menu])
 	switch menu {
 	case 0: // ban: a conflicting authorization for a live device
@@ -237,7 +243,12 @@ func (st *c13State) interferer(p *Parked) {
 	case 4:
 		st.opStats(true)
 	case 5:
-		st.opServerPost()
+		if (p.Site == "srvauth.between" || p.Site == "srvauth.prenet") && w.C.Chance("same-server", 2, 3) {
+			k := st.lastSrvKey
+			st.opServerPostFor(&k)
+		} else {
+			st.opServerPost()
+		}
 	case 6:
 		st.opSync()
 	case 7:
@@ -386,13 +397,23 @@ func (st *c13State) opStats(falseNeg bool) {
 	st.run(op, func() *Task { return n.RequestAsync("stats", "GET", target, nil, res) })
 }
 
-func (st *c13State) opServerPost() {
+func (st *c13State) opServerPost() { st.opServerPostFor(nil) }
+
+// opServerPostFor posts a server authorization; with target set it is the GCA's
+// ban of exactly that server (the order that matters most when it lands in a
+// gap of another post for the same server).
+func (st *c13State) opServerPostFor(target *glow.PublicKey) {
 	n := st.h.N
 	c := st.w.C
-	as := server.AuthorizedServer{PublicKey: Key(fmt.Sprintf("peer%d", c.Int("peer", 3))).Pub, Banned: c.Chance("ban", 1, 4), Location: n.Loc, HttpPort: n.HTTP, TcpPort: n.TCP, UdpPort: n.UDP}
-	if c.Chance("self", 1, 3) {
+	as := server.AuthorizedServer{PublicKey: Key(fmt.Sprintf("peer%d", c.Int("peer", 8))).Pub, Banned: c.Chance("ban", 1, 4), Location: n.Loc, HttpPort: n.HTTP, TcpPort: n.TCP, UdpPort: n.UDP}
+	if c.Chance("self", 1, 4) {
 		as.PublicKey = n.Key.Pub
 	}
+	if target != nil {
+		as.PublicKey, as.Banned = *target, true
+		st.w.Probe("c13.ban-of-server-being-added")
+	}
+	st.lastSrvKey = as.PublicKey
 	as = SignServer(st.h.GCA, as)
 	res := &HTTPResult{}
 	var want bool
